@@ -104,7 +104,7 @@ def step (st : Unit) (j : Json) : Unit × List String :=
   if jStr j "op" == "ambig" then
     (st, [match Fold.ambVal modelFold (toJVal (jObj j "doc")) with | some _ => "ambiguous" | none => "clean"])
   else
-  if jStr j "c" == "jarset" then
+  if jStr j "c" == "jarset" || (jStr j "c" == "jar" && jHas (jObj j "v") "set") then
     -- jar.validate with the client's key set as a list: a key's identity is its thumbprint (harness data); lookup + comparison are the model's
     let info := parseJws (jObj j "info")
     let v := jObj j "v"
@@ -115,6 +115,7 @@ def step (st : Unit) (j : Json) : Unit × List String :=
                                keys := (jArr v "set").map (fun e => { kid := jStr e "kid", tp := if jStr e "tp" == "" then none else some (jStr e "tp") }),
                                tpOf := fun k => if k == "" then none else some k }
     let r := JarSet.validateExit Facts.C17.supportedAlgs E J info
+    if jStr j "c" == "jar" then (st, [showOutcome r.2]) else
     (st, [match r.2 with | .accept _ => "accept" | .reject => "reject:" ++ r.1.show])
   else
   match stepBytes j with
